@@ -48,6 +48,12 @@ void* verif_alloc_page_end(size_t n, size_t dist, size_t) {
   return p + 2 * 4096 - dist - n;
 }
 void verif_map_slack(const void*, size_t) {}
+// replay oracle: glibc strtod is correctly rounded
+int verif_oracle_dec2double(uint64_t man, int exp10, uint64_t bits) {
+  char buf[64]; snprintf(buf, sizeof buf, "%llue%d", (unsigned long long)man, exp10);
+  double d = strtod(buf, 0); uint64_t b; memcpy(&b, &d, 8);
+  return b == bits;
+}
 void verif_check_independent(uint64_t, const char*) {}
 void verif_check_independent_mem(const void*, size_t, const char*) {}
 }
